@@ -326,3 +326,45 @@ func mutatorCallPoints(fn *ssa.Function, method string) []ssa.Instruction {
 	}
 	return out
 }
+
+// wireSwitchHasDefault: the functions that translate a wire frame into an internal message refuse unknown frame types: the
+// internal type is never the value the variable merely started with because no case matched (the zero value is connection_init).
+func wireSwitchHasDefault(c *Ctx) {
+	c.R.Rule("wire-switch-has-default", "package transport, toMessage of each websocket subprotocol: the message type handed on is assigned by a case (or looked up with a presence test); no path on which no case matched reaches the success return with the variable's initial zero value, which means connection_init", 2)
+	n := 0
+	for _, fn := range transportFuncs(c) {
+		if fn.Name() != "toMessage" || fn.Parent() != nil {
+			continue
+		}
+		n++
+		var bad ssa.Instruction
+		for _, b := range fn.Blocks {
+			for _, in := range b.Instrs {
+				phi, ok := in.(*ssa.Phi)
+				if !ok || !strings.HasSuffix(phi.Type().String(), "messageType") {
+					continue
+				}
+				for i, e := range phi.Edges {
+					k, isC := an.ConstInt(e)
+					if !isC || k != 0 {
+						continue
+					}
+					pred := phi.Block().Preds[i]
+					// an explicit `t = initMessageType` comes from a case body (a block that ends in a jump); the implicit
+					// initial value arrives straight from a comparison that failed
+					if _, isIf := pred.Instrs[len(pred.Instrs)-1].(*ssa.If); isIf {
+						bad = phi
+					}
+				}
+			}
+		}
+		pos := c.pos(fn.Pos())
+		if bad != nil {
+			pos = c.ipos(bad)
+		}
+		c.R.Check(bad == nil, c.fnKey(fn)+"/default", pos, "an unknown frame type is refused", "when no case matches, the function goes on with the type variable's initial value, which is connection_init: a first frame of any unknown type is taken for the handshake and acknowledged")
+	}
+	if n < 2 {
+		c.R.Fail("wire-switch-has-default: only %d toMessage functions found", n)
+	}
+}
